@@ -180,27 +180,7 @@ def match(p, e):
     return bool(alt) and p["payload"] == alt[0] and c == alt[1]
 
 
-def starts_multipart(h, orc, st):
-    """does the request handled in this call start a multipart answer? (accepted only when idle;
-    judged from the pending iterator, which the request replaces)"""
-    b, a = st["before"], st["after"]
-    if h is None or "internal" not in orc or h.get("payload"):
-        return False
-    if len(h.get("resp", "")) > 128 or len(h.get("cd", [])) > 32:
-        return False
-    if a["state"] != "Multipart" or a["resp"] != ("resp" in h) or a["cd"] != ("cd" in h) or a["remaining"] != len(orc["internal"]):
-        return False
-    if b["state"] != "Multipart":
-        return True     # (whether the client was allowed to accept it is checked by the caller)
-    # a pending walk may have completed earlier in this very call
-    if a["iter_root"] != b["iter_root"] or a["resp"] != b["resp"] or a["cd"] != b["cd"] or a["remaining"] > b["remaining"] or b["remaining"] == 0:
-        return True
-    if a["remaining"] < b["remaining"]:
-        return False
-    pubs = [p for p in st["packets"] if p["t"] == "pub" and not p["dup"]]
-    if "resp" in h:
-        return not any(p["topic"] == h["resp"] and code_of(p) == "Error" and p["props"]["cd"] == h.get("cd") for p in pubs)
-    return len(pubs) > 0
+starts_multipart = M.starts_multipart
 
 
 def expected_response(h, orc, prefix, started):
